@@ -6,7 +6,11 @@ VERIF="$(cd "$(dirname "$0")/.." && pwd)"; cd "$VERIF"
 PAT="${1:-}"
 groups_for() {
   case "$1" in
-    *c03a3*|*c08a2*|*c09a4*) echo "SE2d;SE2f;BunAd";;
+    *c03a3*|*c08a2*|*c09a4*|*r2c09_4*|*r2c03_3*) echo "SE2d;SE2f;BunAd";;
+    *r2c14_3*) echo "BunAd;BunAf;BunBd";;
+    *r2c14_2*|*r2c09_1*|*r2c09_2*|*r2c10_*|*r2c03_*) echo "SO3d;SO3f;SE3d;SE3f";;
+    *r2c08_*) echo "SO3d;SE2d;SE3d;SE2f";;
+    *r2c09_3*) echo "SO3d;SE2f;SE3d";;
     *c03a2*) echo "SE3d;SE23d;SGal3d;SE3f";;
     *C03-*|*c08a1*|*c08a3*) echo "SO3d;SO3f;SE3d;SE3f";;
     *bundle-cast*|*c09a2*|*c14a1*) echo "BunAd;BunAf;BunBd";;
